@@ -92,14 +92,17 @@ type GetBlockObs struct {
 
 // Result is what a scenario run observed.
 type Result struct {
-	Samples     []SampleRow `json:"samples"`
-	Polls       int         `json:"polls"`
-	Valid       []ValidRow  `json:"valid"`
-	Converged   bool        `json:"converged"`
-	ConvergedMs int64       `json:"converged_ms"`
-	FinalTip    int         `json:"final_honest_tip"`
-	Final       SampleRow   `json:"final"`
-	Dials       []int       `json:"dials"`
+	Samples []SampleRow `json:"samples"`
+	Polls   int         `json:"polls"`
+	// RunMs: length of the sampling window; Polls far below RunMs/20 means
+	// the process was starved (machine overloaded), not the client stuck.
+	RunMs       int64      `json:"run_ms"`
+	Valid       []ValidRow `json:"valid"`
+	Converged   bool       `json:"converged"`
+	ConvergedMs int64      `json:"converged_ms"`
+	FinalTip    int        `json:"final_honest_tip"`
+	Final       SampleRow  `json:"final"`
+	Dials       []int      `json:"dials"`
 	// BanMs: time of the first sample that reports the node banned (-1 never).
 	BanMs []int64 `json:"ban_ms"`
 	// DialsAfterBan / VersionsAfterBan: connection attempts that reached the
@@ -287,6 +290,7 @@ func RunScenario(s *Scenario, work string) *Result {
 	time.Sleep(40 * time.Millisecond)
 	samples, polls := sp.Stop()
 	res.Polls = polls
+	res.RunMs = time.Since(t0).Milliseconds()
 	for i, n := range nt.Nodes() {
 		res.Dials = append(res.Dials, n.Dials())
 		da, va := 0, 0
